@@ -76,6 +76,8 @@ class ViewModule:
             k = r.random()
             if k < 0.35:
                 cond = "tag == %d" % r.choice([0, 1, 1, 2, 3])
+                if r.random() < 0.35:
+                    cond = "%d == tag" % r.choice([0, 1, 1, 2, 3])     # constant on the left of ==: still a switch candidate
             elif k < 0.5:
                 cond = r.choice(["tag > 2", "tag != 0", "tag < 100 && tag > 0", "tag == 1 || tag == 7"])
             elif k < 0.65 and len(ints) >= 2:
@@ -109,7 +111,7 @@ class ViewModule:
                 L.append("    %d [+1]  UInt  after_flag" % off)
                 off += 1
             if r.random() < 0.4:
-                L.append("  if kind == Kind.TWO:")
+                L.append("  if %s:" % r.choice(["kind == Kind.TWO", "Kind.TWO == kind", "kind == Kind.ONE"]))
                 L.append("    %d [+2]  UInt  if_two" % off)
                 off += 2
         # dynamic array
